@@ -2,8 +2,10 @@
    Model: model/C08_Body.v (constructors, containers, operations, per backend as in the source),
    model/C08_Read.v (Pose.read into each body class, torch()/tensorflow()), model/C08_Spec.v (the
    backend-independent content [core], its representation [rep b] in each backend, the observation
-   [obs_core] and the reference result of every operation).  cfgR = the constructors / zero_filled as
-   repaired for F7, F8, F9 and the NumPy stacking axis (tied to the source by ctor_cfg_tie).
+   [obs_core] and the reference result of every operation).  cfgR mm eo = the constructors / zero_filled as
+   repaired for F7, F8, F9 and the NumPy stacking axis, for either shape (mm) of MaskedTensor.matmul's mask and
+   (eo) of the int32 cast of TensorFlow index lists - the two places other owners' proposed fixes change; the
+   source is tied to one of these configurations by ctor_cfg_tie.
 
    Every theorem equates what is observed of backend b (shape, values, validity in one polarity, confidence,
    fps) with a term that does not mention b: all backends agree, and the common value is the stated one.
@@ -14,7 +16,8 @@
      non-empty lists, positive steps); outside it the frameworks' own conventions differ
      (tf_negative_index_refuted, tf_empty_index_list_refuted, torch_negative_step_refuted,
      unchecked_index_on_empty_body_refuted).
-   * matmul: square matrices only for Torch / TF (matmul_nonsquare_refuted, DESIGN F16); the float32 dot
+   * matmul: square matrices only for Torch / TF as the source is (matmul_nonsquare_refuted, DESIGN F16); every
+     non-empty width once MaskedTensor.matmul rebuilds its mask (matmul_agree_after_F16a); the float32 dot
      product is a parameter [dot] - rounding and summation order of the three kernels are not modelled.
    * flatten: column 0 (frame / fps in the backend's float type) is kept as (frame, fps); its rounding is not modelled. *)
 From Coq Require Import ZArith NArith List Bool String.
@@ -22,15 +25,15 @@ Require Import Result Tree F32 Codec C08_Body C08_Read C08_Spec C08_Run C08_Ctor
 Import ListNotations.
 
 (* ---------- reading the same bytes into the three body types; torch() / tensorflow() ---------- *)
-Theorem read_is_rep : forall b buffer a, read_body cfgR b buffer a = rmap (rep b) (read_core buffer a).
+Theorem read_is_rep : forall mm eo b buffer a, read_body (cfgR mm eo) b buffer a = rmap (rep b) (read_core buffer a).
 Proof. exact C08_Main.read_is_rep. Qed.
 Print Assumptions read_is_rep.
-Theorem read_backends_agree : forall b buffer a, ok_res b (read_core buffer a) ->
-  rmap (observe b) (read_body cfgR b buffer a) = rmap obs_core (read_core buffer a).
+Theorem read_backends_agree : forall mm eo b buffer a, ok_res b (read_core buffer a) ->
+  rmap (observe b) (read_body (cfgR mm eo) b buffer a) = rmap obs_core (read_core buffer a).
 Proof. exact C08_Main.read_backends_agree. Qed.
 Print Assumptions read_backends_agree.
-Theorem convert_agree : forall b buffer a, ok_res b (read_core buffer a) ->
-  rmap (observe b) (read_convert cfgR b buffer a) = rmap obs_core (read_core buffer a).
+Theorem convert_agree : forall mm eo b buffer a, ok_res b (read_core buffer a) ->
+  rmap (observe b) (read_convert (cfgR mm eo) b buffer a) = rmap obs_core (read_core buffer a).
 Proof. exact C08_Main.convert_agree. Qed.
 Print Assumptions convert_agree.
 Theorem read_dims_positive : forall buffer a k, read_core buffer a = Ok k -> kD k <> 0%nat.
@@ -46,7 +49,7 @@ Proof. exact C08_Edge.hyps_example. Qed.
 Print Assumptions hyps_example.
 
 (* ---------- a point is missing in all of its dimensions exactly when its confidence is 0 ---------- *)
-Theorem missing_iff_zero_conf : forall b buffer a x, read_body cfgR b buffer a = Ok x -> ok_res b (read_core buffer a) ->
+Theorem missing_iff_zero_conf : forall mm eo b buffer a x, read_body (cfgR mm eo) b buffer a = Ok x -> ok_res b (read_core buffer a) ->
   exists k, read_core buffer a = Ok k /\ observe b x = obs_core k /\
     forall f p t d, (t < List.length (nth p (nth f (k_pts k) []) []))%nat -> (d < kD k)%nat ->
       nth d (at3 [] (rows (fun w => negb (is_zero32 w)) (kD k) (k_pts k)) f p t) true
@@ -59,74 +62,79 @@ Proof. exact C08_Edge.valid_example. Qed.
 Print Assumptions valid_example.
 
 (* ---------- shared operations ---------- *)
-Theorem get_points_agree : forall b k, kD k <> 0%nat -> ok_for b (k_pts k) -> forall idx, idx <> [] -> in_range (kT k) idx ->
-  rmap (observe b) (get_points cfgR b idx (rep b k)) = Ok (obs_core (ref_points (map Z.to_nat idx) k)).
+Theorem get_points_agree : forall mm eo b k, kD k <> 0%nat -> ok_for b (k_pts k) -> forall idx, idx <> [] -> in_range (kT k) idx ->
+  rmap (observe b) (get_points (cfgR mm eo) b idx (rep b k)) = Ok (obs_core (ref_points (map Z.to_nat idx) k)).
 Proof. exact C08_Main.get_points_agree. Qed.
 Print Assumptions get_points_agree.
-Theorem get_points_out_of_range : forall b k idx, (kF k * (kP k * (kD k * 1)) <> 0)%nat -> Exists (out_of (kT k)) idx ->
-  get_points cfgR b idx (rep b k) = Err Index.
+Theorem get_points_out_of_range : forall mm eo b k idx, (kF k * (kP k * (kD k * 1)) <> 0)%nat -> Exists (out_of (kT k)) idx ->
+  get_points (cfgR mm eo) b idx (rep b k) = Err Index.
 Proof. exact C08_Edge.get_points_out_of_range. Qed.
 Print Assumptions get_points_out_of_range.
-Theorem select_frames_agree : forall b k, kD k <> 0%nat -> ok_for b (k_pts k) -> forall idx, idx <> [] -> in_range (kF k) idx ->
-  rmap (observe b) (select_frames cfgR b idx (rep b k)) = Ok (obs_core (ref_frames (k_fps k) (map Z.to_nat idx) k)).
+Theorem select_frames_agree : forall mm eo b k, kD k <> 0%nat -> ok_for b (k_pts k) -> forall idx, idx <> [] -> in_range (kF k) idx ->
+  rmap (observe b) (select_frames (cfgR mm eo) b idx (rep b k)) = Ok (obs_core (ref_frames (k_fps k) (map Z.to_nat idx) k)).
 Proof. exact C08_Main.select_frames_agree. Qed.
 Print Assumptions select_frames_agree.
-Theorem select_frames_out_of_range : forall b k idx, (kP k * (kT k * (kD k * 1)) <> 0)%nat -> Exists (out_of (kF k)) idx ->
-  select_frames cfgR b idx (rep b k) = Err Index.
+Theorem select_frames_out_of_range : forall mm eo b k idx, (kP k * (kT k * (kD k * 1)) <> 0)%nat -> Exists (out_of (kF k)) idx ->
+  select_frames (cfgR mm eo) b idx (rep b k) = Err Index.
 Proof. exact C08_Edge.select_frames_out_of_range. Qed.
 Print Assumptions select_frames_out_of_range.
-Theorem getitem_int_agree : forall b k, kD k <> 0%nat -> ok_for b (k_pts k) -> forall i,
-  rmap (observe3 b) (getitem_int cfgR b i (rep b k)) = rmap (fun j => fobs_core (ref_frame j k)) (norm_wrap (kF k) i).
+Theorem getitem_int_agree : forall mm eo b k, kD k <> 0%nat -> ok_for b (k_pts k) -> forall i,
+  rmap (observe3 b) (getitem_int (cfgR mm eo) b i (rep b k)) = rmap (fun j => fobs_core (ref_frame j k)) (norm_wrap (kF k) i).
 Proof. exact C08_Main.getitem_int_agree. Qed.
 Print Assumptions getitem_int_agree.
-Theorem getitem_int_out_of_range : forall b k, kD k <> 0%nat -> forall i, (i < - Z.of_nat (kF k) \/ Z.of_nat (kF k) <= i)%Z ->
-  getitem_int cfgR b i (rep b k) = Err Index.
+Theorem getitem_int_out_of_range : forall mm eo b k, kD k <> 0%nat -> forall i, (i < - Z.of_nat (kF k) \/ Z.of_nat (kF k) <= i)%Z ->
+  getitem_int (cfgR mm eo) b i (rep b k) = Err Index.
 Proof. exact C08_Main.getitem_int_out_of_range. Qed.
 Print Assumptions getitem_int_out_of_range.
-Theorem getitem_slice_agree : forall b k, kD k <> 0%nat -> ok_for b (k_pts k) -> forall s, pos_step s ->
-  rmap (observe b) (getitem_slice cfgR b s (rep b k)) = rmap (fun ix => obs_core (ref_frames (k_fps k) ix k)) (slice_idx (kF k) s).
+Theorem getitem_slice_agree : forall mm eo b k, kD k <> 0%nat -> ok_for b (k_pts k) -> forall s, pos_step s ->
+  rmap (observe b) (getitem_slice (cfgR mm eo) b s (rep b k)) = rmap (fun ix => obs_core (ref_frames (k_fps k) ix k)) (slice_idx (kF k) s).
 Proof. exact C08_Main.getitem_slice_agree. Qed.
 Print Assumptions getitem_slice_agree.
-Theorem getitem_slice_zero_step : forall b k, kD k <> 0%nat -> forall s, s_step s = Some 0%Z -> getitem_slice cfgR b s (rep b k) = Err Value.
+Theorem getitem_slice_zero_step : forall mm eo b k, kD k <> 0%nat -> forall s, s_step s = Some 0%Z -> getitem_slice (cfgR mm eo) b s (rep b k) = Err Value.
 Proof. exact C08_Main.getitem_slice_zero_step. Qed.
 Print Assumptions getitem_slice_zero_step.
-Theorem slice_step_agree : forall b k, kD k <> 0%nat -> ok_for b (k_pts k) -> forall by_, (0 < by_)%Z ->
-  rmap (observe b) (slice_step cfgR b by_ (rep b k)) =
+Theorem slice_step_agree : forall mm eo b k, kD k <> 0%nat -> ok_for b (k_pts k) -> forall by_, (0 < by_)%Z ->
+  rmap (observe b) (slice_step (cfgR mm eo) b by_ (rep b k)) =
   Ok (obs_core (ref_frames (fps_div (k_fps k) by_) (filter (fun i => (Z.of_nat i mod by_ =? 0)%Z) (seq 0 (kF k))) k)).
 Proof. exact C08_Main.slice_step_agree. Qed.
 Print Assumptions slice_step_agree.
-Theorem slice_step_zero : forall b k, kD k <> 0%nat -> slice_step cfgR b 0 (rep b k) = Err Value.
+Theorem slice_step_zero : forall mm eo b k, kD k <> 0%nat -> slice_step (cfgR mm eo) b 0 (rep b k) = Err Value.
 Proof. exact C08_Main.slice_step_zero. Qed.
 Print Assumptions slice_step_zero.
-Theorem copy_agree : forall b k, kD k <> 0%nat -> ok_for b (k_pts k) -> rmap (observe b) (copy cfgR b (rep b k)) = Ok (obs_core k).
+Theorem copy_agree : forall mm eo b k, kD k <> 0%nat -> ok_for b (k_pts k) -> rmap (observe b) (copy (cfgR mm eo) b (rep b k)) = Ok (obs_core k).
 Proof. exact C08_Main.copy_agree. Qed.
 Print Assumptions copy_agree.
 (* Torch / TF leave a bare tensor in .data: shape, values, confidence and fps are compared *)
-Theorem zero_filled_agree : forall b k, kD k <> 0%nat -> ok_for b (k_pts k) ->
-  rmap (fun y => forget_valid (observe b y)) (zero_filled cfgR b (rep b k)) = Ok (forget_valid (obs_core (ref_zero k))).
+Theorem zero_filled_agree : forall mm eo b k, kD k <> 0%nat -> ok_for b (k_pts k) ->
+  rmap (fun y => forget_valid (observe b y)) (zero_filled (cfgR mm eo) b (rep b k)) = Ok (forget_valid (obs_core (ref_zero k))).
 Proof. exact C08_Main.zero_filled_agree. Qed.
 Print Assumptions zero_filled_agree.
-Theorem matmul_agree_partial : forall (dot : list N -> list N -> N) b k m,
+Theorem matmul_agree_partial : forall (dot : list N -> list N -> N) mm eo b k m,
   kD k <> 0%nat -> ok_for b (k_pts k) -> rows_ok k -> m_rows m = kD k -> m_cols m = kD k ->
-  rmap (fun y => visible (observe b y)) (matmul dot cfgR b m (rep b k)) = Ok (visible (obs_core (ref_matmul dot m k))).
+  rmap (fun y => visible (observe b y)) (matmul dot (cfgR mm eo) b m (rep b k)) = Ok (visible (obs_core (ref_matmul dot m k))).
 Proof. exact C08_Edge.matmul_agree_partial. Qed.
 Print Assumptions matmul_agree_partial.
+Theorem matmul_agree_after_F16a : forall (dot : list N -> list N -> N) eo b k m,
+  kD k <> 0%nat -> ok_for b (k_pts k) -> rows_ok k -> m_rows m = kD k -> m_cols m <> 0%nat ->
+  rmap (fun y => visible (observe b y)) (matmul dot (cfgR MmAllExpand eo) b m (rep b k)) = Ok (visible (obs_core (ref_matmul dot m k))).
+Proof. exact C08_Edge.matmul_agree_after_F16a. Qed.
+Print Assumptions matmul_agree_after_F16a.
 Example matmul_example : m_rows m_ex = kD k_ex /\ m_cols m_ex = kD k_ex.
 Proof. exact C08_Edge.matmul_example. Qed.
 Print Assumptions matmul_example.
-Theorem matmul_numpy_any_width : forall (dot : list N -> list N -> N) k m,
+Theorem matmul_numpy_any_width : forall (dot : list N -> list N -> N) mm eo k m,
   kD k <> 0%nat -> rows_ok k -> m_rows m = kD k -> m_cols m <> 0%nat ->
-  rmap (fun y => visible (observe Np y)) (matmul dot cfgR Np m (rep Np k)) = Ok (visible (obs_core (ref_matmul dot m k))).
+  rmap (fun y => visible (observe Np y)) (matmul dot (cfgR mm eo) Np m (rep Np k)) = Ok (visible (obs_core (ref_matmul dot m k))).
 Proof. exact C08_Edge.matmul_numpy_any_width. Qed.
 Print Assumptions matmul_numpy_any_width.
-Theorem matmul_bad_rows : forall (dot : list N -> list N -> N) b k m, m_rows m <> kD k -> matmul dot cfgR b m (rep b k) = Err Value.
+Theorem matmul_bad_rows : forall (dot : list N -> list N -> N) mm eo b k m, m_rows m <> kD k -> matmul dot (cfgR mm eo) b m (rep b k) = Err Value.
 Proof. exact C08_Edge.matmul_bad_rows. Qed.
 Print Assumptions matmul_bad_rows.
 Theorem matmul_nonsquare_refuted :
   exists k m, kD k <> 0%nat /\ m_rows m = kD k /\
-    rmap (fun y => (o_shape (observe Torch y), option_map fst (o_valid (observe Torch y)))) (matmul dot32 cfgR Torch m (rep Torch k))
+    rmap (fun y => (o_shape (observe Torch y), option_map fst (o_valid (observe Torch y)))) (matmul dot32 (cfgR MmKeep false) Torch m (rep Torch k))
       = Ok ([2; 1; 2; 2]%nat, Some [2; 1; 2; 3]%nat) /\
-    rmap (fun y => (o_shape (observe Np y), option_map fst (o_valid (observe Np y)))) (matmul dot32 cfgR Np m (rep Np k))
+    rmap (fun y => (o_shape (observe Np y), option_map fst (o_valid (observe Np y)))) (matmul dot32 (cfgR MmKeep false) Np m (rep Np k))
       = Ok ([2; 1; 2; 2]%nat, Some [2; 1; 2; 2]%nat).
 Proof. exact C08_Edge.matmul_nonsquare_refuted. Qed.
 Print Assumptions matmul_nonsquare_refuted.
@@ -140,18 +148,18 @@ Print Assumptions flatten_agree.
 
 (* ---------- outside the common argument domain: the frameworks' own conventions ---------- *)
 Theorem tf_negative_index_refuted :
-  is_ok (select_frames cfgR Np [-1]%Z (rep Np k_ex)) = true /\ is_ok (select_frames cfgR Torch [-1]%Z (rep Torch k_ex)) = true /\
-  select_frames cfgR Tf [-1]%Z (rep Tf k_ex) = Err Index.
+  is_ok (select_frames (cfgR MmKeep false) Np [-1]%Z (rep Np k_ex)) = true /\ is_ok (select_frames (cfgR MmKeep false) Torch [-1]%Z (rep Torch k_ex)) = true /\
+  select_frames (cfgR MmKeep false) Tf [-1]%Z (rep Tf k_ex) = Err Index.
 Proof. exact C08_Edge.tf_negative_index_refuted. Qed.
 Print Assumptions tf_negative_index_refuted.
 Theorem tf_empty_index_list_refuted :
-  is_ok (get_points cfgR Np [] (rep Np k_ex)) = true /\ is_ok (get_points cfgR Torch [] (rep Torch k_ex)) = true /\
-  get_points cfgR Tf [] (rep Tf k_ex) = Err Type_.
+  is_ok (get_points (cfgR MmKeep false) Np [] (rep Np k_ex)) = true /\ is_ok (get_points (cfgR MmKeep false) Torch [] (rep Torch k_ex)) = true /\
+  get_points (cfgR MmKeep false) Tf [] (rep Tf k_ex) = Err Type_.
 Proof. exact C08_Edge.tf_empty_index_list_refuted. Qed.
 Print Assumptions tf_empty_index_list_refuted.
 Theorem torch_negative_step_refuted :
-  is_ok (slice_step cfgR Np (-1) (rep Np k_ex)) = true /\ is_ok (slice_step cfgR Tf (-1) (rep Tf k_ex)) = true /\
-  slice_step cfgR Torch (-1) (rep Torch k_ex) = Err Value.
+  is_ok (slice_step (cfgR MmKeep false) Np (-1) (rep Np k_ex)) = true /\ is_ok (slice_step (cfgR MmKeep false) Tf (-1) (rep Tf k_ex)) = true /\
+  slice_step (cfgR MmKeep false) Torch (-1) (rep Torch k_ex) = Err Value.
 Proof. exact C08_Edge.torch_negative_step_refuted. Qed.
 Print Assumptions torch_negative_step_refuted.
 Theorem tf_subnormal_confidence_refuted :
@@ -160,8 +168,8 @@ Theorem tf_subnormal_confidence_refuted :
 Proof. exact C08_Edge.tf_subnormal_confidence_refuted. Qed.
 Print Assumptions tf_subnormal_confidence_refuted.
 Theorem unchecked_index_on_empty_body_refuted :
-  exists k, kD k <> 0%nat /\ select_frames cfgR Np [5]%Z (rep Np k) = Err Index /\ is_ok (select_frames cfgR Torch [5]%Z (rep Torch k)) = true
-                      /\ is_ok (select_frames cfgR Tf [5]%Z (rep Tf k)) = true.
+  exists k, kD k <> 0%nat /\ select_frames (cfgR MmKeep false) Np [5]%Z (rep Np k) = Err Index /\ is_ok (select_frames (cfgR MmKeep false) Torch [5]%Z (rep Torch k)) = true
+                      /\ is_ok (select_frames (cfgR MmKeep false) Tf [5]%Z (rep Tf k)) = true.
 Proof. exact C08_Edge.unchecked_index_on_empty_body_refuted. Qed.
 Print Assumptions unchecked_index_on_empty_body_refuted.
 
@@ -190,7 +198,7 @@ Proof. exact C08_Edge.pinned_zero_filled_refuted. Qed.
 Print Assumptions pinned_zero_filled_refuted.
 
 (* ---------- ties to the source as it is now (gen/Gen_C08.v is regenerated on every run) ---------- *)
-Theorem ctor_cfg_tie : t_cfg (Nd (map L Gen_C08.cfg_code)) = cfg_repaired.
+Theorem ctor_cfg_tie : exists mm eo, t_cfg (Nd (map L Gen_C08.cfg_code)) = cfg_repaired mm eo.
 Proof. exact C08_GenTie.ctor_cfg_tie. Qed.
 Print Assumptions ctor_cfg_tie.
 Theorem points_dims_involution :
